@@ -60,6 +60,38 @@ def run(ctx):
                       "no schedule violating conservation found among those explored: " + line,
                       {"obligation": "G1 trace equality between model/SpscQueue.v (theorems c03_spsc_*) and the queue implementation",
                        "first_divergence": line, "execution": hist, "harness_cmd": cmd, "other_divergences": [m[2] for m in model_mm[1:6]]}, no_input=True)
+    # ---- weak-memory part: the orderings observed at the six sites of the index queue / spsc queue
+    # must be the table the release/acquire theorem is stated for; if they are not, search the
+    # RA view model under the OBSERVED table for a racy / non-conserving execution
+    CODE = {"10": "rlx", "11": "acq", "13": "rel", "20": "rlx", "21": "acq", "23": "rel"}
+    ra_tables = {}
+    for kind in ("iq", "sq"):
+        obs = {}
+        for site, vals in r.get("sites", {}).get(kind, {}).items():
+            if site in CODE:
+                obs[site] = sorted({v[1] for v in vals})
+        ra_tables[kind] = obs
+        if not obs:
+            continue
+        missing = [s_ for s_ in CODE if s_ not in obs]
+        multi = [s_ for s_ in obs if len(obs[s_]) != 1]
+        if missing or multi:
+            ctx.violation("memory-ordering table of %s could not be observed (sites missing %s, ambiguous %s)" % (kind, missing, multi),
+                          {"observed": obs}, no_input=True)
+            continue
+        table = [obs[s_][0] for s_ in ("10", "11", "13", "20", "21", "23")]
+        if table != [CODE[s_] for s_ in ("10", "11", "13", "20", "21", "23")]:
+            rc, out = vlib.sh("%s ra %s" % (driver, " ".join(table)), timeout=600)
+            wit = [l for l in out.split("\n") if l.startswith("RAWITNESS")]
+            if wit:
+                ctx.violation("%s: memory orderings %s differ from the proved table; under release/acquire semantics the view model has a failing execution: %s" % (kind, table, wit[0]),
+                              {"queue": kind, "observed_orderings(push_load_wp,push_load_rp,push_store_wp,pop_load_rp,pop_load_wp,pop_store_rp)": table,
+                               "model_witness": wit[0], "note": "schedule entries are thread:staleness; replay = run model/SpscQueueRA.v rstep with these orderings on this schedule (coq: race_after); not reproducible on x86 hardware, which is why the tests pass",
+                               "how_to_rerun": "%s ra %s" % (driver, " ".join(table))})
+            else:
+                ctx.violation("%s: memory orderings %s differ from the table of theorem c03_ra_race_free_and_conserving; no failing execution found in the view model for them" % (kind, table),
+                              {"obligation": "c03_ra_race_free_and_conserving is stated for ords_code only", "observed": table}, no_input=True)
+    ctx.cov["observed_ordering_tables"] = ra_tables
     if not proof_ok and not ctx.violations:
         ctx.violation("proof obligation no longer checks: %s" % ctx.broken, {"broken": ctx.broken}, no_input=True)
     ctx.assumptions = [
